@@ -28,6 +28,10 @@ def norm_key(key, callee=None):
     if kind == "assert" and detail.startswith("Overflow:"):
         parts = detail.split(":")
         kind, detail, ty = "arith", parts[1], (parts[2] if len(parts) > 2 and parts[2] else None)
+    elif (kind == "assert" and detail.startswith("Bounds")) or kind == "index":
+        kind, detail = "index", "[]"     # v[i] on a Vec (Index::index call) and on the slice borrowed from it (bounds assert): one obligation
+    elif kind == "nonzero-arg":
+        detail = re.sub(r"_mut$", "", detail)     # chunks_exact / chunks_exact_mut of the same buffer with the same size: one obligation
     elif kind == "capacity":
         detail = "ArrayVec"      # collect::<ArrayVec<_, N>>() and an explicit push loop are the same capacity obligation
     elif kind == "overflow-call":
